@@ -73,12 +73,14 @@ theorem respSigma1_selects_fabric (fabrics : List Fabric) (m : Msg) (eph : Nat) 
     split at h
     · cases h
     · rename_i f hf
-      simp only [RespOut1.sent.injEq] at h
-      subst h
-      refine ⟨iRnd, iSid, dest, iEph, resume, rfl, hf, ?_, ?_, rfl, rfl, rfl, rfl, rfl, rfl, rfl⟩
-      · exact List.mem_of_find?_eq_some hf
-      · have := List.find?_some hf
-        simpa using this
+      split at h
+      · cases h
+      · simp only [RespOut1.sent.injEq] at h
+        subst h
+        refine ⟨iRnd, iSid, dest, iEph, resume, rfl, hf, ?_, ?_, rfl, rfl, rfl, rfl, rfl, rfl, rfl⟩
+        · exact List.mem_of_find?_eq_some hf
+        · have := List.find?_some hf
+          simpa using this
   · cases h
 
 /-- **Responder, resumption**: a session completed on the resumption path takes the identity of
@@ -239,9 +241,11 @@ theorem respSigma1_s2 (fabrics : List Fabric) (m : Msg) (eph : Nat) (rnd rid sid
   · rename_i iRnd iSid dest iEph resume
     split at h
     · cases h
-    · simp only [RespOut1.sent.injEq] at h
-      subst h
-      exact ⟨iEph, rfl, rfl, rfl, rfl⟩
+    · split at h
+      · cases h
+      · simp only [RespOut1.sent.injEq] at h
+        subst h
+        exact ⟨iEph, rfl, rfl, rfl, rfl⟩
   · cases h
 
 /-- **Initiator side of agreement**: if the initiator accepts the Sigma2 an honest responder
@@ -614,9 +618,11 @@ theorem sigma3_unforgeable (t t' : Time) (fabrics : List Fabric) (f : Fabric) (p
     simp only [List.find?_nil, Option.map_none] at hR
     split at hR
     · cases hR
-    · simp only [RespOut1.sent.injEq] at hR
-      rw [← hR] at hpe
-      exact hpe.symm
+    · split at hR
+      · cases hR
+      · simp only [RespOut1.sent.injEq] at hR
+        rw [← hR] at hpe
+        exact hpe.symm
   have hrEph : rEph = .epk ephR := by
     rw [hs2] at hm2
     simp only [Msg.sigma2.injEq] at hm2
@@ -813,9 +819,11 @@ theorem C01_full (t : Time) (fabrics : List Fabric) (f : Fabric) (peer ephI ephR
     simp only [List.find?_nil, Option.map_none] at hR'
     split at hR'
     · cases hR'
-    · simp only [RespOut1.sent.injEq] at hR'
-      rw [← hR'] at hpe
-      exact hpe.symm
+    · split at hR'
+      · cases hR'
+      · simp only [RespOut1.sent.injEq] at hR'
+        rw [← hR'] at hpe
+        exact hpe.symm
   let a := min ephR ephI
   let b := max ephR ephI
   have hSec : ctx.secret = .shared a b := by rw [hsec, hiEph, ecdh_epk]
